@@ -6,7 +6,7 @@ from tfsa.loader import own_nodes, AnalysisError
 from tfsa.report import norm
 from tfsa.resolve import const_str
 from . import common as C
-from .c14 import candidate_loop, copy_functions, ENTRY_FUNCS, ENTRY_CLASSES, STOPS
+from .c14 import candidate_loop, copy_functions, always_copying, ENTRY_FUNCS, ENTRY_CLASSES, STOPS
 
 PROP = "C13"
 EXPLANATION = (
@@ -485,7 +485,7 @@ def run(ctx):
     effs, precise, full = C.reach_effects(ctx, entries, ("fs-write", "fs-write?"))
     copyfns = copy_functions(ctx, effs)
     search_continues(ctx, flow, full)
-    counted_placed(ctx, flow, full, copyfns)
+    counted_placed(ctx, flow, full, always_copying(ctx, copyfns))
     reader_tolerates(ctx, full)
     reader_complete(ctx, full)
     index_complete(ctx)
